@@ -3,6 +3,7 @@
 -/
 import Proofs.FileLabels
 import Proofs.Labels
+import Proofs.ToyPrims
 namespace AgeModel
 namespace Props.C11
 open Format Stream
@@ -125,6 +126,72 @@ theorem recipient_order_irrelevant (fk : Bytes) (l0 : List Bytes) (rs₁ rs₂ :
 
 /-- "absent" and "empty" are the same label set -/
 example : sortLabels ((none : Option (List Bytes)).getD []) = sortLabels ((some []).getD []) := rfl
+
+/-! ## non-vacuity witnesses (toy primitives of Proofs/ToyPrims; custom recipient A has labels `a, b`, B has `b, a`) -/
+
+/-- non-vacuity of `refusal_writes_nothing`: a passphrase recipient followed by an X25519 one, on a tape long enough for
+    every draw: refused as incompatible -/
+theorem refusal_writes_nothing_nonvacuous :
+    encryptHeader Prims.toy (List.replicate 100 7)
+      [Recipient.scrypt [112] 10, Recipient.x25519 (List.replicate 32 0)] = .error .incompatible := by rfl
+
+/-- non-vacuity of `write_implies_compatible`: a destination that fails at byte offset 10 (after a partial write), the header
+    written in pieces of 3, 1 and 50 bytes: Encrypt wrote ten bytes before failing -/
+theorem write_implies_compatible_nonvacuous :
+    (encryptInit Prims.toy (List.replicate 100 7) [Recipient.x25519 (List.replicate 32 0)] [3, 1, 50]
+      ({ acc := [], st := false } : Dst (DstSpec.atOffset 10 true true))).2.acc ≠
+    ({ acc := [], st := false } : Dst (DstSpec.atOffset 10 true true)).acc := by
+  have h : (encryptInit Prims.toy (List.replicate 100 7) [Recipient.x25519 (List.replicate 32 0)] [3, 1, 50]
+      ({ acc := [], st := false } : Dst (DstSpec.atOffset 10 true true))).2.acc =
+      [97, 103, 101, 45, 101, 110, 99, 114, 121, 112] := by rfl
+  rw [h]; decide
+
+/-- non-vacuity of `encrypt_ok_labels_equal`: recipients A and B (the same labels in a different order) are accepted together -/
+theorem encrypt_ok_labels_equal_nonvacuous :
+    ∃ st, encryptHeader Prims.toy (List.replicate 100 7)
+      (Recipient.custom (fun fk => some [{ type := [88], args := [], body := fk }]) (some [[97], [98]]) ::
+       [Recipient.custom (fun fk => some [{ type := [89], args := [[90]], body := fk ++ fk }]) (some [[98], [97]])]) =
+      .ok (List.replicate 16 7, st, List.replicate 84 7) := ⟨_, rfl⟩
+
+/-- non-vacuity of `custom_loop_iff`: the list B, A consists of custom recipients (and both sides of the equivalence hold
+    for it against the sorted labels `a, b`: second conjunct) -/
+theorem custom_loop_iff_nonvacuous :
+    (∀ r ∈ [Recipient.custom (fun fk => some [{ type := [89], args := [[90]], body := fk ++ fk }]) (some [[98], [97]]),
+            Recipient.custom (fun fk => some [{ type := [88], args := [], body := fk }]) (some [[97], [98]])],
+        ∃ w lbl, r = Recipient.custom w lbl) ∧
+    customOK (List.replicate 16 7) [[97], [98]]
+      [Recipient.custom (fun fk => some [{ type := [89], args := [[90]], body := fk ++ fk }]) (some [[98], [97]]),
+       Recipient.custom (fun fk => some [{ type := [88], args := [], body := fk }]) (some [[97], [98]])] := by
+  refine ⟨?_, ⟨rfl, rfl, rfl, rfl, trivial⟩⟩
+  intro r hr
+  simp only [List.mem_cons, List.not_mem_nil, or_false] at hr
+  rcases hr with rfl | rfl <;> exact ⟨_, _, rfl⟩
+
+/-- non-vacuity of `encrypt_ok_iff_labels_equal`: first recipient A, then the list B, A; a 100-byte tape -/
+theorem encrypt_ok_iff_labels_equal_nonvacuous :
+    (∀ r ∈ [Recipient.custom (fun fk => some [{ type := [89], args := [[90]], body := fk ++ fk }]) (some [[98], [97]]),
+            Recipient.custom (fun fk => some [{ type := [88], args := [], body := fk }]) (some [[97], [98]])],
+        ∃ w lbl, r = Recipient.custom w lbl) ∧
+    16 ≤ (List.replicate 100 7 : Bytes).length :=
+  ⟨custom_loop_iff_nonvacuous.1, by decide⟩
+
+/-- … where both sides of the equivalence hold; with a label-less recipient in the list instead, both fail -/
+example : ∃ fk st t, encryptHeader Prims.toy (List.replicate 100 7)
+    (Recipient.custom (fun fk => some [{ type := [88], args := [], body := fk }]) (some [[97], [98]]) ::
+      [Recipient.custom (fun fk => some [{ type := [89], args := [[90]], body := fk ++ fk }]) (some [[98], [97]]),
+       Recipient.custom (fun fk => some [{ type := [88], args := [], body := fk }]) (some [[97], [98]])]) = .ok (fk, st, t) :=
+  (encrypt_ok_iff_labels_equal Prims.toy _ _ _ _ encrypt_ok_iff_labels_equal_nonvacuous.1 encrypt_ok_iff_labels_equal_nonvacuous.2).mpr
+    ⟨rfl, custom_loop_iff_nonvacuous.2⟩
+example : encryptHeader Prims.toy (List.replicate 100 7)
+    [Recipient.custom (fun fk => some [{ type := [88], args := [], body := fk }]) (some [[97], [98]]),
+     Recipient.custom (fun _ => some []) none] = .error .incompatible := by rfl
+
+/-- non-vacuity of `recipient_order_irrelevant`: A, B and B, A -/
+theorem recipient_order_irrelevant_nonvacuous :
+    [Recipient.custom (fun fk => some [{ type := [88], args := [], body := fk }]) (some [[97], [98]]),
+     Recipient.custom (fun fk => some [{ type := [89], args := [[90]], body := fk ++ fk }]) (some [[98], [97]])].Perm
+    [Recipient.custom (fun fk => some [{ type := [89], args := [[90]], body := fk ++ fk }]) (some [[98], [97]]),
+     Recipient.custom (fun fk => some [{ type := [88], args := [], body := fk }]) (some [[97], [98]])] := List.Perm.swap _ _ _
 
 end Props.C11
 end AgeModel
